@@ -62,6 +62,12 @@ def worker(args):
                     sub.violation('%s|%s|flush-time-failure-changed-rows' % (rel, sx.kinds(hist)),
                                   dict(model=name, fixture=fixture, history=hist, before=before, after=after),
                                   'the failing %r (%s) changed committed rows' % (op, o[1]))
+        if not (op[0] in COMMITS and o[0] == 'ok') and before is not None and after is not None and after != before:
+            # rows became visible to other sessions outside a successful commit: a later conflict
+            # could not leave the database unchanged for this session
+            sub.violation('%s|%s|rows-committed-outside-commit' % (rel, sx.kinds(hist)),
+                          dict(model=name, fixture=fixture, history=hist, before=before, after=after),
+                          '%r changed committed rows (obs %r)' % (op, o))
         if op[0] in COMMITS and o[0] == 'ok':
             sub.count('commits')
             view = env.decode_dump(after, x.pk2label)
